@@ -34,8 +34,10 @@ Definition add4 (a b : list nat) : list nat :=
 (* answer of one method call, and the reads it may make (None: no claim when the call fails) *)
 Definition sres := (outcome nat * option (list nat))%type.
 
+Definition g_block (g : gst) (d : nat) (sn : src -> option nat) : gst :=
+  mkG (g_cur g) d sn (g_dead g) (g_ok g).
 Definition snap_set (g : gst) (s : src) (v : nat) : gst :=
-  mkG (g_cur g) (g_depth g) (fun x => if src_eqb x s then Some v else g_snap g x) (g_dead g) (g_ok g).
+  g_block g (g_depth g) (fun x => if src_eqb x s then Some v else g_snap g x).
 
 (* the source the method is computed from: the block's first read if there is one, else the kernel now *)
 Definition spec_primary (g : gst) (s : src) : gst * outcome nat * list nat :=
@@ -49,11 +51,13 @@ Definition spec_primary (g : gst) (s : src) : gst * outcome nat * list nat :=
       end
   end.
 
+(* Sources: stat, status, smaps are shared by several methods and kept by the block (one read per block);
+   statm is per method: memory_info() keeps its own answer for the block, memory_full_info() reads statm
+   again on every call (its smaps part comes from the block). *)
 Definition spec_call (g : gst) (m : meth) : gst * sres :=
   let '(g', o, c) := spec_primary g (m_src m) in
   match o with
   | Val v =>
-      (* memory_full_info additionally needs statm (never kept by a block): fails if that is unreadable *)
       if meth_eqb m Mmemory_full
       then match g_cur g Statm with
            | SAvail _ => (g', (Val v, Some (add4 c (one Statm))))
@@ -63,27 +67,25 @@ Definition spec_call (g : gst) (m : meth) : gst * sres :=
   | _ => (g', (o, None))
   end.
 
+(* ppid() needs no clause of its own: its PID-reuse pre-check (Process._gone, sticky) only ever turns an answer
+   into NoSuchProcess once the process is gone, which is what the kernel state says anyway; inside a block the
+   block's first read wins, as for every other method. *)
 Definition spec_step (g : gst) (o : op) : gst * option sres :=
   match o with
-  | OEnter => (mkG (g_cur g) (S (g_depth g)) (if Nat.eqb (g_depth g) 0 then no_snap else g_snap g) (g_dead g) (g_ok g), None)
+  | OEnter => (g_block g (S (g_depth g)) (if Nat.eqb (g_depth g) 0 then no_snap else g_snap g), None)
   | OExit =>
       match g_depth g with
       | 0 => (g, None)
-      | 1 => (mkG (g_cur g) 0 no_snap (g_dead g) (g_ok g), None)
-      | S d => (mkG (g_cur g) d (g_snap g) (g_dead g) (g_ok g), None)
+      | 1 => (g_block g 0 no_snap, None)
+      | S d => (g_block g d (g_snap g), None)
       end
-  | ORaise => (mkG (g_cur g) 0 no_snap (g_dead g) (g_ok g), None)
+  | ORaise => (g_block g 0 no_snap, None)
   | OEnv (ESet s st) =>
-      (* outside the claim: a source reappearing after the process is gone; a single file vanishing *)
+      (* outside the claim: a source reappearing after the process is gone; a single file of a live process vanishing *)
       let ok := g_ok g && negb (g_dead g) && (match st with SGone => false | _ => true end) in
       (mkG (fun x => if src_eqb x s then st else g_cur g x) (g_depth g) (g_snap g) (g_dead g) ok, None)
   | OEnv EGone => (mkG (fun _ => SGone) (g_depth g) (g_snap g) true (g_ok g), None)
-  | OCall (CM m) =>
-      (* outside the claim: ppid() while stat is not readable -- denied, or the process vanished
-         (its PID-reuse pre-check, Process._gone / _pid_reused, belongs to C01/C02) *)
-      let ok := g_ok g && negb (meth_eqb m Mppid && match g_cur g Stat with SAvail _ => false | _ => true end) in
-      let (g', r) := spec_call g m in
-      (mkG (g_cur g') (g_depth g') (g_snap g') (g_dead g') ok, Some r)
+  | OCall (CM m) => let (g', r) := spec_call g m in (g', Some r)
   | OCall CPid => (g, Some (Val pidval, Some zero4))
   | OCall (CStub o) => (g, Some (o, match o with Val _ => Some zero4 | _ => None end))
   end.
@@ -94,7 +96,10 @@ Fixpoint spec_go (g : gst) (h : list op) (acc : list sres) : gst * list sres :=
   | o :: r => let (g', x) := spec_step g o in
               spec_go g' r (match x with Some y => y :: acc | None => acc end)
   end.
-Definition spec_init (f : src -> sstate) : gst := mkG f 0 no_snap false true.
+(* a Process object exists only for a process that was there: no source starts out vanished *)
+Definition init_ok (f : src -> sstate) : bool :=
+  forallb (fun s => match f s with SGone => false | _ => true end) [Stat; Status; Smaps; Statm].
+Definition spec_init (f : src -> sstate) : gst := mkG f 0 no_snap false (init_ok f).
 Definition spec_run (f : src -> sstate) (h : list op) : option (list sres) :=
   let (g, rs) := spec_go (spec_init f) h [] in if g_ok g then Some rs else None.
 
